@@ -47,4 +47,27 @@ mod verif_kani_error {
             Err(_) => assert!(false),
         }
     }
+
+    // C08 (bounded): UNKNOWN-ATTRIBUTES decoder on values of 0..=8 bytes: accepted <=> type 0x000A and an even length; the
+    // list is the big-endian 16-bit values in order; an odd length is reported as truncated by one byte
+    #[kani::proof]
+    #[kani::unwind(6)]
+    fn k08_unknown_attributes_small() {
+        let buf: [u8; 8] = kani::any();
+        let n: usize = kani::any();
+        kani::assume(n <= 8);
+        let t: u16 = kani::any();
+        let raw = RawAttribute::new(AttributeType::new(t), &buf[..n]);
+        match UnknownAttributes::try_from(&raw) {
+            Ok(v) => {
+                assert!(t == 0x000A && n % 2 == 0);
+                assert!(v.length() as usize == n);
+                let mut i = 0;
+                while i < 4 { if 2 * i < n { assert!(v.has_attribute(AttributeType::new((buf[2 * i] as u16) << 8 | buf[2 * i + 1] as u16))); } i += 1; }
+            }
+            Err(StunParseError::WrongAttributeImplementation) => assert!(t != 0x000A),
+            Err(StunParseError::Truncated { expected, actual }) => assert!(t == 0x000A && n % 2 == 1 && actual == n && expected == n + 1),
+            Err(_) => assert!(false),
+        }
+    }
 }
